@@ -227,12 +227,12 @@ theorem C12_binOps_are_binary : ∀ o ∈ binOps, Bin o := by
     exact ⟨rfl, by decide⟩
 
 /-- **Round trip.**  For every operator tree `t` over atoms (identifiers, integer, decimal, string,
-    boolean and regexp literals), prefix operators (`!`, `-`, `√`), binary operators and index expressions
-    `l[i]` - of any size and shape (nesting below the parser's guard of 2000) - printed by `T.pr` with a
+    boolean and regexp literals), prefix operators (`!`, `-`, `√`), binary operators, index expressions
+    `l[i]`, calls `f(a, b, …)` and array literals `[a, b, …]` - of any size and shape (nesting below the parser's guard of 2000) - printed by `T.pr` with a
     pair of parentheses exactly around a left operand of lower level, around a right operand of lower or
-    equal level, around a binary operand of a prefix operator, and around an indexed operand that is not
-    an atom or an index expression itself, `return <that text>;` parses to exactly `t`.  Hence: indexing
-    binds tighter than prefix operators, those tighter than every binary operator, higher level binds
+    equal level, around a binary operand of a prefix operator, and around an indexed or called operand
+    that binds less tightly (arguments and elements never need any; the printer also wraps a call that
+    is then indexed, which is not necessary but harmless), `return <that text>;` parses to exactly `t`.  Hence: indexing and calling bind tighter than prefix operators, those tighter than every binary operator, higher level binds
     tighter, equal levels group left to right, parentheses override, for expressions of unbounded size. -/
 theorem C12_round_trip (t : T) (hwf : t.wf) (hn : t.nest ≤ maxNesting) :
     parse (retTok :: t.pr ++ [semiTok, Token.eof]) = some [.ret t.toExpr] :=
@@ -273,7 +273,12 @@ theorem C12_round_trip_example :
     -- -a[i + 1][0] is -((a[i + 1])[0]);  (-a)[0] needs its parentheses
     (T.pre minus (.idx (.idx (idT ['a']) (.node plus (idT ['i']) (idT ['1']))) (idT ['0']))).pr.map (·.lit) =
       [['-'], ['a'], ['['], ['i'], ['+'], ['1'], [']'], ['['], ['0'], [']']] ∧
-    (T.idx (.pre minus (idT ['a'])) (idT ['0'])).pr.map (·.lit) = [['('], ['-'], ['a'], [')'], ['['], ['0'], [']']] := by
+    (T.idx (.pre minus (idT ['a'])) (idT ['0'])).pr.map (·.lit) = [['('], ['-'], ['a'], [')'], ['['], ['0'], [']']] ∧
+    -- a[0](a + 1, [b, c]) : an indexed operand called with two arguments, the second an array literal
+    (T.call (.idx (idT ['a']) (idT ['0'])) (.cons (.node plus (idT ['a']) (idT ['1'])) (.cons (.arr (.cons (idT ['b']) (.cons (idT ['c']) .nil))) .nil))).pr.map (·.lit) =
+      [['a'], ['['], ['0'], [']'], ['('], ['a'], ['+'], ['1'], [','], ['['], ['b'], [','], ['c'], [']'], [')']] ∧
+    -- the printer puts a (harmless) pair of parentheses around a call that is then indexed
+    (T.idx (.call (idT ['f']) .nil) (idT ['0'])).pr.map (·.lit) = [['('], ['f'], ['('], [')'], [')'], ['['], ['0'], [']']] := by
   decide
 
 theorem C12_round_trip_example_wf :
